@@ -420,7 +420,8 @@ theorem good_viIterate : Good a.lo a.hi (viIterate v a) := by
 theorem good_viAssign : Good a.lo a.hi (viAssign v a) := by
   unfold viAssign; good_auto hv hw
 
-theorem good_recursionRounds (idx : Nat) : ∀ (n : Nat) (it : Ty), Good a.lo a.hi (recursionRounds v a idx n it)
+theorem good_recursionRounds (te : TraitEnv) (idx : Nat) :
+    ∀ (n : Nat) (it : Ty), Good a.lo a.hi (recursionRounds te v a idx n it)
   | 0, _ => good_pure _
   | n+1, it => by
     unfold recursionRounds
@@ -430,7 +431,9 @@ theorem good_recursionRounds (idx : Nat) : ∀ (n : Nat) (it : Ty), Good a.lo a.
     apply good_bind (good_expectTy _ _); intro nt
     split
     · exact good_pure _
-    · exact good_recursionRounds idx n nt
+    · split
+      · exact good_pure _
+      · exact good_recursionRounds te idx n _
 
 theorem good_viRecursion (Γ : Ctx) : Good a.lo a.hi (viRecursion Γ v a) := by
   unfold viRecursion
@@ -443,11 +446,13 @@ theorem good_viRecursion (Γ : Ctx) : Good a.lo a.hi (viRecursion Γ v a) := by
   · exact good_stuck _
   · (refine good_kidErr hw _ _ ?_; decide)
   · apply good_bind (good_expectTy _ _); intro it0
-    apply good_bind
-    · exact good_modify _ (fun _ => rfl)
-    intro _
-    apply good_bind (good_recursionRounds hv hw _ _ _); intro it
-    good_auto hv hw
+    split
+    · (refine good_kidErr hw _ _ ?_; decide)
+    · apply good_bind
+      · exact good_modify _ (fun _ => rfl)
+      intro _
+      apply good_bind (good_recursionRounds hv hw _ _ _ _); intro it
+      good_auto hv hw
 
 theorem good_deboolAll (eid : Nat) (hc : isCritical eid = true) : ∀ (n i : Nat), Good a.lo a.hi (deboolAll v a eid n i)
   | 0, _ => good_pure _
